@@ -160,17 +160,18 @@ def run(chk):
         else:
             chk.ok("R09.2", key=("formats", val))
     # R09.3 scoring
-    evp, _ = dom.EnvSpec.lookup("_evaluate_platform")
-    chk.require(evp is not MISSING, "anchor EnvSpec._evaluate_platform missing")
+    def evp_call(spec, t):
+        return dom.plat_eval(spec, t)
+    rp_any = it.call(it.resolve(it.module("dep_logic.specifiers").ns["parse_version_specifier"]), [">=3.0"], {})
     chk.instance("R09.3")
     for os_obj, am in ((mk("Manylinux", 2, 28), members["x86_64"]), (mk("Macos", 12, 0), members["aarch64"]), (mk("Windows"), members["x86_64"])):
         p = it.construct(dom.Platform, [os_obj, am], {})
-        spec = dom.envspec(None, p, None)
+        spec = dom.envspec(rp_any, p, None)
         tags = list(it.getattr(p, "compatible_tags")) + ["any"]
-        scores = [it.call(Bound(evp, spec), [t], {}) for t in tags]
+        scores = [evp_call(spec, t) for t in tags]
         okk = all(isinstance(s, int) for s in scores) and all(a > b for a, b in zip(scores, scores[1:])) and scores[-1] >= 1
-        foreign = it.call(Bound(evp, spec), ["no_such_platform_tag"], {})
-        again = [it.call(Bound(evp, spec), [t], {}) for t in tags]
+        foreign = evp_call(spec, "no_such_platform_tag")
+        again = [evp_call(spec, t) for t in tags]
         if again != scores:
             chk.fail("R09.3", "dep_logic.tags.tags:EnvSpec._evaluate_platform:unstable", f"platform scores change between two evaluations of the same tags: {scores[:4]} then {again[:4]}")
         if not okk or foreign is not None:
@@ -178,8 +179,8 @@ def run(chk):
                      f"platform scores are not strictly decreasing with list position / `any` not last and positive / foreign tag not None: {scores[:6]}.. foreign={foreign}")
         else:
             chk.ok("R09.3", key=("scores", len(tags)), n=len(tags))
-    spec = dom.envspec(None, None, None)
-    s = it.call(Bound(evp, spec), ["any"], {})
+    spec = dom.envspec(rp_any, None, None)
+    s = evp_call(spec, "any")
     if s != -1:
         chk.fail("R09.3", "dep_logic.tags.tags:EnvSpec._evaluate_platform:no-platform", f"without a platform the score is {s}, expected -1")
     else:
